@@ -25,7 +25,8 @@ import (
 // NULL arguments and a NULL pattern yield NULL in every sibling (G3), the strings and the
 // position/occurrence integers handed to the matcher are derived from the SQL arguments the
 // same way in every sibling (S1, G5), and the match_type validator and the flag interpreter
-// agree (G6).
+// agree (G6); what a node keeps across rows is guarded by a cacheability flag over every argument it
+// depends on (G7).
 
 type c33Config struct {
 	FuncRel   string // package of the SQL functions
@@ -45,7 +46,7 @@ type c33Config struct {
 	// passes constants instead of SQL arguments (read from the pinned matcher: see c33Repo).
 	ConstArgs map[string][2]int64
 
-	FloorFamily, FloorG1, FloorG2, FloorSlot, FloorG3, FloorG3c, FloorS1, FloorG5, FloorG6 int
+	FloorFamily, FloorG1, FloorG2, FloorSlot, FloorG3, FloorG3c, FloorS1, FloorG5, FloorG6, FloorG7 int
 }
 
 var c33Repo = c33Config{
@@ -58,7 +59,10 @@ var c33Repo = c33Config{
 	// IndexOf/Substring/Replace which subtract 1) and loops `for i := 1; i < occurrence`: a whole-subject
 	// test is Matches(0, 0|1).
 	ConstArgs:   map[string][2]int64{"Matches": {0, 1}},
-	FloorFamily: 4, FloorG1: 37, FloorG2: 28, FloorSlot: 16, FloorG3: 14, FloorG3c: 21, FloorS1: 7, FloorG5: 11, FloorG6: 13,
+	// floors: the family and the per-argument rules equal today's counts; rules counted per call site sit below today's counts
+	// (37 / 28 / 16 / 21 / 13 / 11) because merging the two compile call sites of a node or dropping the dead cache fields of
+	// REGEXP_REPLACE is a legitimate refactor
+	FloorFamily: 4, FloorG1: 21, FloorG2: 19, FloorSlot: 8, FloorG3: 14, FloorG3c: 16, FloorS1: 7, FloorG5: 11, FloorG6: 11, FloorG7: 7,
 }
 
 func init() {
@@ -86,13 +90,16 @@ func init() {
 			"(G5) every integer handed to the matcher (position, occurrence) is the evaluated SQL argument with conversions only - no arithmetic in the wrapper, the 1-based/0-based conversion happens in exactly one place, " +
 			"the matcher - or a constant within the frozen table (Matches(0, <=1)); position and occurrence come from fields of the same name in every sibling and are different fields. " +
 			"(G6) match_type: every non-constant string that reaches the flag-interpreting loop of H is result 0 of one package-local validator; the validator's switch over the characters ends in a default arm that returns a " +
-			"constructed error on every path; every flag character the validator lets through is interpreted by an arm of H's switch, constant defaults consist of interpreted characters, and the arms set pairwise different non-zero flag constants.",
+			"constructed error on every path; every flag character the validator lets through is interpreted by an arm of H's switch, constant defaults consist of interpreted characters, and the arms set pairwise different non-zero flag constants. " +
+			"(G7) caches: the nodes keep a computed result and a compiled matcher across rows under bool fields assigned from calls of one package predicate over receiver fields (conjunctions of such calls and of other flags). " +
+			"Every store of the kept result happens under a flag whose calls name every argument field that is evaluated in Eval or evaluated by H (pattern, match_type); every store of a freshly compiled matcher that is conditional on a flag " +
+			"(compile once if the flag holds / recompile per row if it does not) is under a flag that names the pattern and match_type fields. A missing argument makes the value of the first row the answer for every row, in this sibling only.",
 		NotCovered: "what a pattern matches: that ICU's matches equal a reference engine, the values of positions / occurrences / substrings, that REGEXP_REPLACE substitutes exactly the matches REGEXP_INSTR reports (all computed at run time by ICU through cgo); " +
 			"the offset arithmetic inside github.com/dolthub/go-icu-regex (read once to freeze the constant-argument table, not analysed); the meaning of each flag constant (n -> DOTALL etc. is not compared with MySQL); " +
 			"range validation of position / occurrence (REGEXP_REPLACE rejects position < 1 and position > length in the wrapper, REGEXP_INSTR / REGEXP_SUBSTR leave both to the matcher, which answers 'no match': a disagreement that is visible but not claimed); " +
 			"that an error stored in the cached-error field is not overwritten by a later call of the storing function before Eval reads it (needs the correlation with the cacheRegex flag); errors of other callees (argument evaluation, conversions) which follow the same idiom but are not sources here; " +
 			"release of the matcher (Close/Dispose pairing): at the pinned go-icu-regex version the C memory is also released by runtime.AddCleanup and Close is idempotent, so a leak or a double close does not change any REGEXP_* result and is not a necessary condition of this property; " +
-			"sharing of one matcher between a node and its WithChildren copy; the gms_pure_go build variant (internal/regex/regex_pure.go) is not loaded in the quick tier.",
+			"which expressions the cacheability predicate (canBeCached) accepts - only that every argument is submitted to it; that the per-row path really recompiles; sharing of one matcher between a node and its WithChildren copy; the gms_pure_go build variant (internal/regex/regex_pure.go) is not loaded in the quick tier.",
 		Run: func(c *Ctx) { runC33(c, c33Repo) },
 		Fixture: func(c *Ctx, fx *Prog) {
 			cfg := c33Config{
@@ -103,7 +110,7 @@ func init() {
 				ErrCtors:  []string{"vchk/testdata/c33/sqlx.Kind.New", "fmt.Errorf", "errors.New"},
 				ConstArgs: map[string][2]int64{"Matches": {0, 1}},
 			}
-			expectFixture(c, fx, "c33: second compiler, swapped helper arguments, dropped / nulled / overwritten errors, unchecked cached error, missing NULL test, matcher used without nil guard, subject without unwrap, position arithmetic, swapped position/occurrence, validator bypassed, default arm without error, uninterpreted flag, duplicate flag constant",
+			expectFixture(c, fx, "c33: second compiler, swapped helper arguments, dropped / nulled / overwritten errors, unchecked cached error, missing NULL test, matcher used without nil guard, subject without unwrap, position arithmetic, swapped position/occurrence, validator bypassed, default arm without error, uninterpreted flag, duplicate flag constant, cache flags that forget an argument",
 				c33FixtureWant, func(fc *Ctx) { runC33(fc, cfg) })
 		},
 		FixturePkgs: []string{"./testdata/c33/fn", "./testdata/c33/rx", "./testdata/c33/sqlx"},
@@ -181,7 +188,8 @@ func runC33(c *Ctx, cfg c33Config) {
 	e.ruleG3c()
 	e.ruleArgs()
 	e.ruleG6()
-	lap("G2..G6")
+	e.ruleG7()
+	lap("G2..G7")
 	dumpObsIfAsked(c)
 }
 
